@@ -171,8 +171,10 @@ def _check_strand(part, orc, rspecs, stats, attr, rec):
 
 def _check_cube_level(cube, sv, q, dims, rec):
     """Cube.counts / unweighted_counts over valid raw elements incl. the MR state axis."""
-    if q.get("measure"):
+    m = q.get("measure")
+    if m and (sv["vars"][m["var"]]["type"] == "numarr" or m.get("valid_counts", True)):
         return  # valid-count substitution is covered through the partitions
+    want_means = bool(m) and "mean" in m["stats"]
     W = sv["weights"] if q.get("weighted") else None
     # --- raw axes: (predicate builder, keys)
     axes = []
@@ -192,6 +194,8 @@ def _check_cube_level(cube, sv, q, dims, rec):
                 axes.append(("ca_cats", var, od[0].keys))
     got_w = np.asarray(cube.counts)
     got_u = np.asarray(cube.unweighted_counts)
+    if got_w.ndim == 0:
+        return
     exp_shape = tuple(len(a[2]) for a in axes)
     if got_u.shape != exp_shape:
         rec.violation("Cube.unweighted_counts shape %r != %r" % (got_u.shape, exp_shape),
@@ -202,6 +206,7 @@ def _check_cube_level(cube, sv, q, dims, rec):
         for (role, var, keys), i in zip(axes, idx):
             sel.setdefault(var["alias"], {})[role] = keys[i]
         tw = tu = 0
+        pairs = []
         for r in range(sv["n"]):
             ok = True
             for alias, roles in sel.items():
@@ -218,6 +223,15 @@ def _check_cube_level(cube, sv, q, dims, rec):
             if ok:
                 tu += 1
                 tw += 1 if W is None else W[r]
+                if want_means and sv["vars"]["x"]["values"][r] is not None:
+                    pairs.append((1 if W is None else W[r], sv["vars"]["x"]["values"][r]))
+        if want_means:
+            gm = np.asarray(cube.means)[idx]
+            em = zz9enc.numeric_stat("mean", pairs)
+            rec.compared()
+            if not close(gm, em):
+                rec.violation("Cube.means%r = %r, response carries %r" % (idx, gm, em),
+                              "cube-means")
         rec.compared(2)
         if not close(got_u[idx], tu) or not close(got_w[idx], tw):
             rec.violation("Cube counts%r = %r/%r, respondents give %r/%r" % (
